@@ -27,6 +27,7 @@ def bloom_hash_c(self: Obj(CBloomFilter, heap=True), nHashNum: Int, vDataToHash:
     option(callable=True)
     requires(len(self.vData) > 0 and 0 <= nHashNum)
     requires(0 <= self.nTweak and self.nTweak <= 0xFFFFFFFF)
+    hint('post', 'post', unfold(bloom_index(nHashNum, self.nTweak, vDataToHash, 8 * len(self.vData))))
     ensures(result == bloom_index(nHashNum, self.nTweak, vDataToHash, 8 * len(self.vData)))
     ensures(0 <= result and result < 8 * len(self.vData))
 
@@ -53,6 +54,65 @@ def contains_safe(self: Obj(CBloomFilter, heap=True), elem: Bytes):
     ensures(self.vData == old(self.vData))
     ensures(implies(len(self.vData) == 0, result == True))
     ensures(implies(self.nHashFuncs == 0, result == True))
+
+
+@contract('bitcoin.bloom:CBloomFilter.insert', name='insert_sets_schedule_bits', prop=P)
+def insert_sets_schedule_bits(self: Obj(CBloomFilter, heap=True), elem: Bytes, *, j: Int, idx: Int):
+    """PROVED (any data length, any hash-function count): after insert, the bit selected by EVERY hash function j of
+    the BIP37 schedule is set (the ghost j is arbitrary, i.e. universally quantified; the ghost idx names that bit, so
+    that the byte-update reasoning is over a plain integer and the modulus appears once); the saturated one-byte filter
+    is covered by the same clause"""
+    requires(0 <= self.nTweak and self.nTweak <= 0xFFFFFFFF and 0 <= self.nHashFuncs and len(self.vData) > 0)
+    requires(0 <= j and j < self.nHashFuncs)
+    requires(idx == bloom_index(j, self.nTweak, elem, 8 * len(self.vData)) and 0 <= idx and idx < 8 * len(self.vData))
+    autosplit(0, 256)
+    invariant(0, len(self.vData) == pre(len(self.vData)) and self.nTweak == pre(self.nTweak)
+              and self.nHashFuncs == pre(self.nHashFuncs))
+    invariant(0, implies(j < _k, bit_set(self.vData, idx)))
+    hint(0, 'body', case_split(idx % 8))
+    ensures(bit_set(self.vData, idx))
+    ensures(bit_set(self.vData, bloom_index(j, self.nTweak, elem, 8 * len(self.vData))))
+
+
+@contract('bitcoin.bloom:CBloomFilter.insert', name='insert_keeps_set_bits', prop=P)
+def insert_keeps_set_bits(self: Obj(CBloomFilter, heap=True), elem: Bytes, *, b: Int):
+    """PROVED: every bit b that was set before insert is still set afterwards (ghost b arbitrary): insertions never
+    clear a bit, so earlier elements stay contained"""
+    requires(0 <= self.nTweak and self.nTweak <= 0xFFFFFFFF and 0 <= self.nHashFuncs and len(self.vData) > 0)
+    requires(0 <= b and b < 8 * len(self.vData))
+    autosplit(0, 256)
+    invariant(0, len(self.vData) == pre(len(self.vData)) and self.nTweak == pre(self.nTweak)
+              and self.nHashFuncs == pre(self.nHashFuncs))
+    invariant(0, implies(bit_set(pre(self.vData), b), bit_set(self.vData, b)))
+    hint(0, 'body', case_split(b % 8))
+    ensures(implies(bit_set(old(self.vData), b), bit_set(self.vData, b)))
+
+
+@contract('bitcoin.bloom:CBloomFilter.contains', name='contains_when_all_bits_set', prop=P)
+def contains_when_all_bits_set(self: Obj(CBloomFilter, heap=True), elem: Bytes):
+    """PROVED: a filter in which the bit of every hash function of the schedule is set answers True (with
+    insert_sets_schedule_bits: no false negatives, also after any further insertions, which keep set bits set)"""
+    requires(0 <= self.nTweak and self.nTweak <= 0xFFFFFFFF and 0 <= self.nHashFuncs and len(self.vData) > 0)
+    requires(forall(range(0, self.nHashFuncs),
+                    lambda j: bit_set(self.vData, bloom_index(j, self.nTweak, elem, 8 * len(self.vData)))))
+    autosplit(0, 256)
+    invariant(0, self.vData == pre(self.vData) and self.nTweak == pre(self.nTweak)
+              and self.nHashFuncs == pre(self.nHashFuncs))
+    ensures(result == True)
+
+
+@contract('bitcoin.bloom:CBloomFilter.contains', name='contains_false_names_unset_bit', prop=P)
+def contains_false_names_unset_bit(self: Obj(CBloomFilter, heap=True), elem: Bytes, *, j: Int, idx: Int):
+    """PROVED: True is answered only if the bit of every hash function j is set (ghost j arbitrary, ghost idx names
+    its bit) - membership is decided by the schedule bits and nothing else; the saturated one-byte filter included"""
+    requires(0 <= self.nTweak and self.nTweak <= 0xFFFFFFFF and 0 <= self.nHashFuncs and len(self.vData) > 0)
+    requires(0 <= j and j < self.nHashFuncs)
+    requires(idx == bloom_index(j, self.nTweak, elem, 8 * len(self.vData)) and 0 <= idx and idx < 8 * len(self.vData))
+    autosplit(0, 256)
+    invariant(0, self.vData == pre(self.vData) and self.nTweak == pre(self.nTweak)
+              and self.nHashFuncs == pre(self.nHashFuncs)
+              and implies(j < _k, bit_set(self.vData, idx)))
+    ensures(implies(result == True, bit_set(self.vData, idx)))
 
 
 @contract('bitcoin.bloom:CBloomFilter.stream_serialize', name='bloom_ser', prop=P)
@@ -156,6 +216,31 @@ def _gen_outpoint_elem(rng):
     return {'self': _gen_filter(rng), 'elem': {'__obj__': cls, 'args': [_bj(h), n]}, 'h': _bj(h), 'n': n}
 
 
+def _gen_bits_case(which):
+    def g(rng):
+        f = _gen_filter(rng)
+        while len(f['args'][0]['__bytes__']) == 0 or f['args'][1] == 0:
+            f = _gen_filter(rng)
+        d = {'self': f, 'elem': _elem(rng)}
+        if which == 'j':
+            d['j'] = rng.randrange(f['args'][1])
+        elif which == 'jidx':
+            d['j'] = rng.randrange(f['args'][1])
+            d['idx'] = ref_murmur3((d['j'] * 0xFBA4C795 + f['args'][2]) & 0xffffffff, bytes(d['elem']['__bytes__'])) \
+                % (8 * len(f['args'][0]['__bytes__']))
+        elif which == 'b':
+            d['b'] = rng.randrange(8 * len(f['args'][0]['__bytes__']))
+        elif which == 'full':
+            f['args'][0] = _bj(b'\xff' * len(f['args'][0]['__bytes__']))
+        return d
+    return g
+
+
+# stand-ins of the proved bit-level units (used only when a rewrite breaks a proof)
+_replay.GENERATORS['insert_sets_schedule_bits'] = _gen_bits_case('jidx')
+_replay.GENERATORS['insert_keeps_set_bits'] = _gen_bits_case('b')
+_replay.GENERATORS['contains_false_names_unset_bit'] = _gen_bits_case('jidx')
+_replay.GENERATORS['contains_when_all_bits_set'] = _gen_bits_case('full')
 _replay.GENERATORS['insert_outpoint_is_bip37'] = _gen_outpoint_elem
 _replay.GENERATORS.update({
     'murmur_is_reference': lambda rng: {'nHashSeed': rng.choice([0, 1, 0xFBA4C795, 0xFFFFFFFF, rng.getrandbits(32)]),
